@@ -35,7 +35,7 @@ def gen_encoded_header(workdir):
 def cache_obl(threads, calls, kf=None, timeout=900, tiers=('quick', 'thorough')):
     return Obl(name='fftcache_t%d_c%d%s' % (threads, calls, '_lazyinit' if kf else ''), src='c17_cache.c',
                defs=['-DVF_THREADS=%d' % threads, '-DVF_CALLS=%d' % calls], ccflags=['-I' + os.path.join(runner.HARNESS, 'include', 'omp_model')],
-               unwind=calls + 2, checks='none', slice=False, extra=['--sat-solver', 'cadical'], timeout=timeout, tiers=tiers, kf=kf, native=False, ndebug=False, mem_gb=24,
+               unwind=max(calls, threads) + 2, checks='none', slice=False, extra=['--sat-solver', 'cadical'], timeout=timeout, tiers=tiers, kf=kf, native=False, ndebug=False, mem_gb=24,
                desc='%d threads x %d lsx_safe_rdft calls, all interleavings%s' % (threads, calls, ' (probe of the known finding: first use inside the threads)' if kf else ''),
                bounds='%d threads, %d calls each, lengths in {8,16,32}; sequential consistency' % (threads, calls),
                stubs=['omp locks: harness/include/omp_model/omp.h + c17_cache.c', 'realloc/free/atexit and the transform lsx_rdft: event models'],
